@@ -23,6 +23,8 @@ def run(tier):
         a, b = souts[s["id"]]["res"], outs[int(s["id"][1:])]["res"]
         if not vlib.jeq(a, b):
             rep.violation("alias:%s" % s["id"], s, a, b, "tls_parser and parse_tls_plaintext differ on the same input")
+    # (growth) every length of the variable-size fields, not only the boundaries (MC_LenSweep)
+    common.len_sweep(rep, binary, PROP)
     return rep.finish("model_checking",
                       "cases = concatenations of 0..3 records from TLS and DTLS pools followed by nothing / a truncated record / an "
                       "oversized header / garbage / a malformed record, through tls_parser_many, parse_dtls_plaintext_records and tls_parser; "
